@@ -886,7 +886,7 @@ theorem Wf.closed : Closed0 Wf where
   enterFiles := fun _ _ now _ h _ q => Wf.enterFiles now h q
   emitRead := fun _ _ _ _ h _ => Wf.emit _ h
   emitIdle := fun _ _ _ _ h _ => Wf.emit _ h
-  publish := fun _ _ now _ h => Wf.publish now h
+  publish := fun _ _ now _ h _ => Wf.publish now h
   fdtAdvance := fun _ _ now _ h hq hs => Wf.fdtAdvance now h hq hs
   fileStart := fun _ _ _ _ tk _ _ h _ hfn => Wf.fileStart tk h hfn
   pkt := fun _ _ _ _ now _ idx b e _ h _ _ _ _ _ => Wf.pkt now idx b e h
@@ -898,7 +898,7 @@ theorem Wf.closedOps : ClosedOps0 Wf where
   add := fun _ _ a _ h => Wf.add a h
   remove := fun _ _ t _ h => Wf.remove t h
   trigger := fun _ _ t ts _ h => Wf.trigger t ts h
-  emitPublish := fun _ _ _ _ h => Wf.emit _ h
+  publishOp := fun _ _ now _ h => Wf.publishTry now (Wf.emit _ h)
   complete := fun _ _ _ h => Wf.complete h
 
 /-- the structural invariant holds after every operation history -/
